@@ -19,7 +19,7 @@ import (
 
 type childOut struct {
 	Partial  []core.Violation // violations the child reported before it died
-	Resume   []byte // tape that continues a batch after the delivery that killed the child
+	Resume   []byte           // tape that continues a batch after the delivery that killed the child
 	Res      *core.Result
 	Raw      string // the RESULT line
 	Stderr   string
